@@ -316,7 +316,20 @@ impl GraphMutator {
                     value,
                 } => {
                     let const_id = self.graph.add_constant_node(value);
-                    self.replace_value(output_id, const_id);
+
+                    // Optimization must preserve input/output IDs, so if the
+                    // replaced value is a graph output, keep the value node
+                    // and copy the constant into it.
+                    if self.graph.output_ids().contains(&output_id) {
+                        self.add_operator(
+                            None,
+                            Arc::new(Identity {}),
+                            &[Some(const_id)],
+                            &[Some(output_id)],
+                        )
+                    } else {
+                        self.replace_value(output_id, const_id);
+                    }
                 }
             }
         }
